@@ -870,11 +870,13 @@ def R8_expansion_intact(ctx):
     tm = Terms(b)
     rt = tm.return_term()
     alts = list(rt[1]) if rt[0] == "phi" else [rt]
-    oks = [a for a in alts if a[0] == "agg" and a[2] == "Ok"]
+    is_flat = lambda x: x[0] == "call" and x[1].split("{")[0].endswith("input_plugin_ops::json_array_flatten")
+    # (the fallible call may also be returned as it is: `in_ops::json_array_flatten(&mut plugin_state)` without `?` and `Ok(..)`)
+    oks = [a for a in alts if (a[0] == "agg" and a[2] == "Ok") or is_flat(a)]
     okv = len(oks) >= 1
     why = "no Ok value"
     for a in oks:
-        v = dict(a[3])["0"]
+        v = a if is_flat(a) else dict(a[3])["0"]
         while v[0] in ("field", "variant") or (v[0] == "call" and ("Try>::branch" in v[1] or "Try::branch" in v[1])):
             v = v[1] if v[0] != "call" else v[2][0]
         if v[0] == "mut":
